@@ -1,7 +1,7 @@
 """C16 — issued certificates (new_cert and wrappers). DESIGN §4 C16."""
 import ast
 
-from .common import ctx, returns, calls_in_ctx, site, srcs_text, full_text, bound_args, call_arg, explore
+from .common import ctx, returns, calls_in_ctx, site, srcs_text, full_text, bound_args, call_arg, explore, inline_ast
 from ..flow import callee_attr
 from ..linexpr import lin, show, NotLinear
 from ..loader import AnalysisError, norm, NOVALUE
@@ -21,10 +21,13 @@ def single_defs(cx):
 
 
 def _killed(cx, call, atom):
-    """under the valuation `atom`, the parameter binding of the issuer id cannot reach `call`: a re-binding lies on every path"""
+    """under the valuation `atom`, the parameter binding of the issuer id cannot reach `call`: a re-binding of the variable passed
+    (the parameter itself, or the local that carries it) lies on every path"""
     cn = cx.node_of(call)
-    redefs = {n.id for n in cx.cfg.nodes if n.kind != 'entry' and any(nm == 'issuer_id' for (nm, _) in cx.cfg.defs_of(n))}
-    if isinstance(call.args[1], ast.Name) and call.args[1].id == 'issuer_id':
+    if isinstance(call.args[1], ast.Name):
+        var = call.args[1].id
+        redefs = {n.id for n in cx.cfg.nodes if n.kind != 'entry' and any(nm == var for (nm, v) in cx.cfg.defs_of(n))
+                  and not (var != 'issuer_id' and n.kind == 'stmt' and isinstance(n.ast, ast.Assign) and ast.unparse(n.ast.value) == 'issuer_id')}
         return cn.id not in explore(cx, atom, stop=redefs)
     return False
 
@@ -120,7 +123,8 @@ def run(R):
                     if isinstance(e, ast.Call) and callee_attr(e) == 'encode' and isinstance(e.func.value, ast.Call) \
                             and callee_attr(e.func.value) == 'strftime':
                         sf = e.func.value
-                        fmt = sf.args[0].value if sf.args and isinstance(sf.args[0], ast.Constant) else None
+                        fa = inline_ast(s.ctx, sf.args[0]) if sf.args else None      # (the format may be held in a local)
+                        fmt = fa.value if isinstance(fa, ast.Constant) else None
                         base = sf.func.value
                         bs = nc.sources(s.node, base)
                         if fmt != FMT:
@@ -148,44 +152,73 @@ def run(R):
         valv = valv[0]
         chk('C16.SIZ.1', 'shrink amount from the signing markers', len(shr_calls) >= 1, shr_calls[0] if shr_calls else nc.f.node,
             'the shrink amount is not read from the markers of this encode')
-        # n = len(value) - shrink, as a linear form over len(value) and the shrink amount read from the markers
-        N = lin(ast.parse(f'len({valv}) - {root}._shrink_len.get_arg(markers)', mode='eval').body, sub)
+        # the straight-line assembly is executed in the linear-size domain (write_tl_num(X, ..) yields TL(X) = get_tl_num_size(X), the
+        # identity the VAR-NUMBER tables establish): sizes and offsets may be hoisted into locals or kept as a running offset
+        from ..sizeexec import expr as sx
+        from ..linexpr import _add
+        env = {}
+        writes, stores, bufdefs = [], [], []
+        bnames = {ast.unparse(r.ast.value.elts[1]) for r in rets if isinstance(r.ast.value, ast.Tuple) and len(r.ast.value.elts) == 2}
+        R.need(len(bnames) == 1 and all(isinstance(r.ast.value.elts[1], ast.Name) for r in rets if isinstance(r.ast.value, ast.Tuple)),
+               f'new_cert: the assembled packet is not one local returned as second element ({sorted(bnames)})')
+        B = bnames.pop()
+
+        def note_writes(e):
+            for c in ast.walk(e):
+                if isinstance(c, ast.Call) and ast.unparse(c.func).endswith('write_tl_num') and c.args:
+                    ba = bound_args(P, nc, c)
+                    off = ba.get('offset', c.args[2] if len(c.args) > 2 else ast.Constant(0))
+                    writes.append((c, sx(c.args[0], env, {}), ast.unparse(ba.get('buf', c.args[1] if len(c.args) > 1 else ast.Constant(None))), sx(off, env, {})))
+
+        def walk_block(stmts):
+            for st_ in stmts:
+                if type(st_).__name__ == 'InlineBlock':
+                    walk_block(st_.body)
+                    continue
+                if isinstance(st_, (ast.If, ast.For, ast.While, ast.Try, ast.With)):
+                    if any(isinstance(x, ast.Name) and x.id == B for x in ast.walk(st_)):
+                        raise AnalysisError(f'new_cert: the packet buffer is assembled under control flow (`{norm(st_)[:60]}`), not in straight line')
+                    continue
+                if isinstance(st_, ast.Assign) and len(st_.targets) == 1:
+                    t_, v_ = st_.targets[0], st_.value
+                    note_writes(v_)
+                    if isinstance(t_, ast.Name):
+                        if t_.id == B and isinstance(v_, ast.Call) and ast.unparse(v_.func) == 'bytearray' and v_.args:
+                            bufdefs.append((v_, sx(v_.args[0], env, {})))
+                        try:
+                            env[t_.id] = sx(v_, env, {})
+                        except NotLinear:
+                            env.pop(t_.id, None)
+                    elif isinstance(t_, ast.Subscript) and ast.unparse(t_.value) == B and isinstance(t_.slice, ast.Slice):
+                        lo = sx(t_.slice.lower, env, {}) if t_.slice.lower is not None else {}
+                        src_ok = isinstance(v_, ast.Subscript) and isinstance(v_.slice, ast.Slice) and ast.unparse(v_.value) in (valv, f'memoryview({valv})')
+                        vlo = (sx(v_.slice.lower, env, {}) if v_.slice.lower is not None else {}) if src_ok else None
+                        vhi = (sx(v_.slice.upper, env, {}) if v_.slice.upper is not None else None) if src_ok else None
+                        stores.append((st_, lo, t_.slice.upper, vlo, vhi, src_ok))
+                elif isinstance(st_, ast.AugAssign) and isinstance(st_.target, ast.Name) and isinstance(st_.op, (ast.Add, ast.Sub)):
+                    note_writes(st_.value)
+                    try:
+                        env[st_.target.id] = _add(env.get(st_.target.id, {st_.target.id: 1}), sx(st_.value, env, {}), 1 if isinstance(st_.op, ast.Add) else -1)
+                    except NotLinear:
+                        env.pop(st_.target.id, None)
+                elif isinstance(st_, ast.Expr):
+                    note_writes(st_.value)
+        walk_block(nc.f.node.body)
+        N = sx(ast.parse(f'len({valv}) - {root}._shrink_len.get_arg(markers)', mode='eval').body, {valv: env[valv]} if valv in env else {}, {})
         TLD = {'get_tl_num_size(TypeNumber.DATA)': 1}
         TLN = {f'get_tl_num_size({show(N)})': 1}
-        want_len = dict(TLD)
-        for d in (TLN, N):
-            for k, v in d.items():
-                want_len[k] = want_len.get(k, 0) + v
-        bufs = [(n, v) for n in nc.cfg.nodes for (nm, v) in nc.cfg.defs_of(n) if nm == 'buf' and isinstance(v, ast.Call) and ast.unparse(v.func) == 'bytearray']
-        okb = len(bufs) == 1 and lin(bufs[0][1].args[0], sub) == want_len
-        chk('C16.SIZ.1', 'buffer size', okb, bufs[0][1] if bufs else nc.f.node,
-            f'buffer length is {show(lin(bufs[0][1].args[0], sub)) if bufs else "?"}, expected {show(want_len)}')
-        ws = [c for (n, c) in sorted(calls_in_ctx(nc, pred=lambda c: ast.unparse(c.func).endswith('write_tl_num')), key=lambda x: x[0].id)]
-        okw = len(ws) == 2
-        if okw:
-            a0 = ws[0]
-            okw = ast.unparse(a0.args[0]) == 'TypeNumber.DATA' and ast.unparse(a0.args[1]) == 'buf' and (len(a0.args) < 3 or lin(a0.args[2], sub) == {})
-            a1 = ws[1]
-            okw = okw and lin(a1.args[0], sub) == N and ast.unparse(a1.args[1]) == 'buf' and len(a1.args) > 2 and lin(a1.args[2], sub) == TLD
-        chk('C16.SIZ.1', 'type at 0, length at TL(type)', okw, ws[1] if len(ws) > 1 else nc.f.node,
+        want_len = _add(_add(TLD, TLN), N)
+        okb = len(bufdefs) == 1 and bufdefs[0][1] == want_len
+        chk('C16.SIZ.1', 'buffer size', okb, bufdefs[0][0] if bufdefs else nc.f.node,
+            f'buffer length is {show(bufdefs[0][1]) if bufdefs else "?"}, expected {show(want_len)}')
+        ws = [w_ for w_ in writes if w_[2] == B]
+        okw = len(ws) == 2 and ws[0][1] == {'TypeNumber.DATA': 1} and ws[0][3] == {} and ws[1][1] == N and ws[1][3] == TLD
+        chk('C16.SIZ.1', 'type at 0, length at TL(type)', okw, ws[1][0] if len(ws) > 1 else nc.f.node,
             'the outer Type/Length are not written as (DATA at 0, len(value) - shrink at TL(DATA))')
-        sl = [n for n in nc.cfg.nodes if n.kind == 'stmt' and isinstance(n.ast, ast.Assign) and isinstance(n.ast.targets[0], ast.Subscript)
-              and ast.unparse(n.ast.targets[0].value) == 'buf']
-        oks = False
-        if len(sl) == 1:
-            t = sl[0].ast.targets[0]
-            v = sl[0].ast.value
-            lo = t.slice.lower if isinstance(t.slice, ast.Slice) else None
-            want_off = dict(TLD)
-            for k, vv in TLN.items():
-                want_off[k] = want_off.get(k, 0) + vv
-            oks = lo is not None and t.slice.upper is None and lin(lo, sub) == want_off and isinstance(v, ast.Subscript) and isinstance(v.slice, ast.Slice) \
-                and 'value' in ast.unparse(v.value) and (v.slice.lower is None or lin(v.slice.lower, sub) == {}) and v.slice.upper is not None \
-                and lin(v.slice.upper, sub) == N
-        chk('C16.SIZ.1', 'value placed after the header, truncated by the shrink', oks, sl[0].ast if sl else nc.f.node,
+        oks = len(stores) == 1 and stores[0][5] and stores[0][1] == _add(TLD, TLN) and stores[0][2] is None and stores[0][3] == {} and stores[0][4] == N
+        chk('C16.SIZ.1', 'value placed after the header, truncated by the shrink', oks, stores[0][0] if stores else nc.f.node,
             'the value is not copied to offset TL(DATA)+TL(n) as value[0:n]')
-        okr2 = bool(rets) and all(ast.unparse(r.ast.value.elts[1]) == 'buf' for r in rets if isinstance(r.ast.value, ast.Tuple))
-        chk('C16.SIZ.1', 'the assembled buffer is returned', okr2, rets[0].ast if rets else nc.f.node, 'new_cert does not return the assembled packet')
+        chk('C16.SIZ.1', 'the assembled buffer is returned', bool(rets) and bool(bufdefs), rets[0].ast if rets else nc.f.node, 'new_cert does not return the assembled packet')
     except NotLinear as e:
         raise AnalysisError(f'new_cert: size expression not linear: {e}')
     # ------------------------------------------------------------------ PRV.2 wrappers
@@ -217,9 +250,8 @@ def run(R):
                     if not live:
                         probs.append(f'no certificate is issued when the issuer id is {"text" if text else "a component"}')
                     for c_ in live:
-                        srcs = cx.sources(cx.node_of(c_), c_.args[1])
                         # only the bindings that are live under this valuation count
-                        srcs = [s_ for s_ in srcs if s_.kind == 'param' or s_.node.id in reach]
+                        srcs = cx.sources(cx.node_of(c_), c_.args[1], live=reach)
                         conv = [s_ for s_ in srcs if s_.kind == 'expr' and ast.unparse(s_.expr) == 'Component.from_str(issuer_id)']
                         raw = [s_ for s_ in srcs if s_.kind == 'param' and s_.expr == 'issuer_id']
                         other = [s_ for s_ in srcs if s_ not in conv and s_ not in raw]
